@@ -94,6 +94,7 @@ def case(g, tier, ci):
             ops += [{"op": "el.validate", "id": "e2"}, {"op": "el.points", "id": "e2"}]
     ops += [{"op": "el.validate", "id": "e"}, {"op": "el.points", "id": "e"}, {"op": "el.duration", "id": "e"},
             {"op": "el.SR", "id": "e"}, {"op": "el.getArrays", "id": "e", "time": r.random() < 0.5}, {"op": "el.channels", "id": "e"},
+            {"op": "el.getArrays", "id": "e", "time": False}, {"op": "el.validate", "id": "e"}, {"op": "el.points", "id": "e"},
             {"op": "sq.new", "id": "s"}, {"op": "sq.setSR", "id": "s", "v": enc(SR)},
             {"op": "sq.addElement", "id": "s", "pos": 1, "el": "e"}, {"op": "sq.desc", "id": "s"}]
     if len({str(c) for c in chans}) < len(chans):
